@@ -12,6 +12,10 @@
 //	extremes   32 all-zero / all-ones megabyte packets on one instance, then ordinary packets
 //	period     one sending and one receiving instance: a probe packet, exactly 2^16-1, 2^16, 2^17, 2^18, 2^20
 //	           other packets, the probe again (ciphertext against the stock library, plaintext against the original)
+//
+// Second round (third red-team wave, body-only changes keyed on what the generators did not vary): legs2.go —
+// keylife (the caller wipes / re-uses the key buffer after construction), keytext (hex / base64 / digit / text keys of
+// every accepted length), ctors (every public constructor), and held outputs in runSession. All in the normal tiers.
 package main
 
 import (
